@@ -462,14 +462,20 @@ def nat_fblock(L, F, phase, fabric, regime, assemblage):
 # ----------------------------------------------------------------------------- C09 glue / C01 frame / C07 null forcing and failure frame
 @guarded
 def c09_glue(run):
+    for regime in (4, 6):  # both dislocation regimes that evolve the texture (sliding must not depend on the regime)
+        _c09_glue_regime(run, regime)
+
+
+def _c09_glue_regime(run, regime):
     from contracts import gbslib as GL
 
-    h, ex = explore(run, "C09/glue", assemblage=(0,))
+    rt = "" if regime == 4 else f"[regime={regime}]"
+    h, ex = explore(run, f"C09/glue{rt}", assemblage=(0,), regime=regime)
     if ex is None:
         return
     for pi, p in enumerate(ex.paths):
         tr = p.value
-        t = f"C09/glue/path{pi}"
+        t = f"C09/glue{rt}/path{pi}"
         if tr.exc is not None:
             run.prove(f"{t}/no-exception", FN, path_hyps(ex, p), z3.BoolVal(False), structural=True, detail=f"raised {type(tr.exc).__name__}: {tr.exc}")
             continue
